@@ -1398,6 +1398,72 @@ pub fn prot_positions(v: &MVal) -> Vec<(String, Option<Vec<u8>>)> {
     out
 }
 
+/// Visit every protected header of a value mutably, in the order of `prot_positions`.
+pub fn for_each_prot(v: &mut MVal, f: &mut dyn FnMut(&mut MProt)) {
+    fn p(p: &mut MProt, f: &mut dyn FnMut(&mut MProt)) {
+        f(p);
+        hdr(&mut p.header, f);
+    }
+    fn hdr(h: &mut MHeader, f: &mut dyn FnMut(&mut MProt)) {
+        for s in h.csigs.iter_mut() {
+            sig(s, f);
+        }
+    }
+    fn sig(s: &mut MSignature, f: &mut dyn FnMut(&mut MProt)) {
+        p(&mut s.prot, f);
+        hdr(&mut s.unprot, f);
+    }
+    fn rcp(r: &mut MRecipient, f: &mut dyn FnMut(&mut MProt)) {
+        p(&mut r.prot, f);
+        hdr(&mut r.unprot, f);
+        for x in r.recipients.iter_mut() {
+            rcp(x, f);
+        }
+    }
+    match v {
+        MVal::Header(h) => hdr(h, f),
+        MVal::ProtMap(x) => hdr(&mut x.header, f),
+        MVal::Signature(s) => sig(s, f),
+        MVal::Sign(s) => {
+            p(&mut s.prot, f);
+            hdr(&mut s.unprot, f);
+            for x in s.sigs.iter_mut() {
+                sig(x, f);
+            }
+        }
+        MVal::Sign1(s) => {
+            p(&mut s.prot, f);
+            hdr(&mut s.unprot, f);
+        }
+        MVal::Mac(s) => {
+            p(&mut s.prot, f);
+            hdr(&mut s.unprot, f);
+            for x in s.recipients.iter_mut() {
+                rcp(x, f);
+            }
+        }
+        MVal::Mac0(s) => {
+            p(&mut s.prot, f);
+            hdr(&mut s.unprot, f);
+        }
+        MVal::Encrypt(s) => {
+            p(&mut s.prot, f);
+            hdr(&mut s.unprot, f);
+            for x in s.recipients.iter_mut() {
+                rcp(x, f);
+            }
+        }
+        MVal::Encrypt0(s) => {
+            p(&mut s.prot, f);
+            hdr(&mut s.unprot, f);
+        }
+        MVal::Recipient(r) => rcp(r, f),
+        MVal::SuppPub(s) => p(&mut s.prot, f),
+        MVal::Kdf(k) => p(&mut k.supp.prot, f),
+        _ => {}
+    }
+}
+
 // ---------------------------------------------------------------------------------------------
 // Structures of RFC 8152 sections 4.4, 5.3, 6.3
 
